@@ -58,6 +58,7 @@ func runC16(c *Ctx) {
 	runC16ScratchReset(c)
 	runC16SortSubjects(c)
 	runC16PushOrder(c)
+	runC16HeapContract(c)
 	borrow(c, "O8", "C05", "O13", "", "a per-job table of the topology plugin that survives into the next job confines that job to the previous job's nodes: a higher-priority workload stays pending next to free nodes while an identical lower-priority one, attempted after a different predecessor, is placed")
 	borrow(c, "O6", "C08", "O5", "AllocatedNotPreemptible", "the non-preemptible quota gate must be monotone within a cycle: a deallocation that subtracts what the allocation never added lowers the queue's non-preemptible usage, so an earlier (higher-priority) workload is refused and an identical later one admitted")
 	p, fx := c.P, c.Fx
@@ -655,4 +656,105 @@ func runC16PushOrder(c *Ctx) {
 	}
 	_, path, found := reachAvoiding([]cfgPos{{B: push.Blocks[0], I: 0}}, isReturn, isHeap("Push"), byComparison)
 	c.Check(!found, "O9", "MPT", funcKey(push)+": every Push inserts the item", push.Pos(), "heap.Push on every path", "Push can return without inserting the item ("+pathStr(path)+")")
+}
+
+// runC16HeapContract (O10): the leaf heap is container/heap over priorityQueue. container/heap orders items only if
+// the five interface methods keep their contract (Len = number of items, Swap exchanges exactly i and j, Push appends,
+// Pop removes and returns the LAST item) and the wrapper hands out heap.Pop's result and items[0] as the best item.
+func runC16HeapContract(c *Ctx) {
+	const pkg = "pkg/scheduler/scheduler_util"
+	show := func(fn *ssa.Function) (rets []string, stores []string) {
+		for _, b := range fn.Blocks {
+			for _, in := range b.Instrs {
+				switch x := in.(type) {
+				case *ssa.Return:
+					for _, r := range x.Results {
+						rets = append(rets, termOf(r).String())
+					}
+				case *ssa.Store:
+					stores = append(stores, termOf(x.Addr).String()+" := "+termOf(x.Val).String())
+				}
+			}
+		}
+		sort.Strings(rets)
+		sort.Strings(stores)
+		return
+	}
+	check := func(recv, name, what string, pred func(rets, stores []string) bool, why string) {
+		fn := c.Anchor("O10", pkg, recv, name)
+		if fn == nil {
+			return
+		}
+		rets, stores := show(fn)
+		c.Check(pred(rets, stores), "O10", "PROV", funcKey(fn)+": "+what, fn.Pos(), strings.Join(append(rets, stores...), " ; "),
+			why+" (returns: "+strings.Join(rets, " ; ")+"; stores: "+strings.Join(stores, " ; ")+")")
+	}
+	all := func(xs []string, f func(string) bool) bool {
+		for _, x := range xs {
+			if !f(x) {
+				return false
+			}
+		}
+		return len(xs) > 0
+	}
+	check("priorityQueue", "Len", "Len is the number of items", func(r, _ []string) bool {
+		return all(r, func(s string) bool { return strings.HasPrefix(s, "call[builtin.len](") && strings.Contains(s, ".items") })
+	}, "container/heap sifts within [0, Len()): a different length leaves items outside the heap order")
+	check("priorityQueue", "Push", "Push appends the item", func(_, st []string) bool {
+		app, item := false, false
+		for _, s := range st {
+			if strings.Contains(s, ".items := call[builtin.append](") && strings.Contains(s, ".items, ") {
+				app = true
+			} else if strings.HasSuffix(s, ":= param:1:x") || strings.Contains(s, ":= param:1:") {
+				item = true
+			} else {
+				return false
+			}
+		}
+		return app && (item || strings.Contains(strings.Join(st, ";"), "param:1:"))
+	}, "heap.Push sifts up the LAST slot: the new item must be appended there")
+	check("priorityQueue", "Pop", "Pop removes and returns the last item", func(r, st []string) bool {
+		okR := all(r, func(s string) bool { return strings.HasPrefix(s, "index(") && strings.Contains(s, "builtin.len") && strings.Contains(s, "- const:1") })
+		okS := all(st, func(s string) bool { return strings.Contains(s, ".items := slice(") })
+		return okR && okS
+	}, "heap.Pop moves the best item to the last slot before calling Pop: returning another slot hands out a wrong job")
+	check("priorityQueue", "Peek", "Peek is items[0]", func(r, _ []string) bool {
+		return all(r, func(s string) bool { return s == "const:nil" || (strings.HasPrefix(s, "index(") && strings.HasSuffix(s, "const:0)")) })
+	}, "the best item of a heap is slot 0")
+	check("PriorityQueue", "Pop", "the wrapper's Pop is heap.Pop of its own heap", func(r, _ []string) bool {
+		return all(r, func(s string) bool { return s == "const:nil" || strings.HasPrefix(s, "call[container/heap.Pop](") })
+	}, "only heap.Pop restores the heap order after removing the best item")
+	if fn := c.Anchor("O10", pkg, "priorityQueue", "Swap"); fn != nil {
+		// two element stores: items[i] := old items[j] and items[j] := old items[i], both values loaded before either store
+		var st []*ssa.Store
+		for _, in := range instrsIn(fn, func(in ssa.Instruction) bool {
+			x, ok := in.(*ssa.Store)
+			if !ok {
+				return false
+			}
+			_, isIdx := x.Addr.(*ssa.IndexAddr)
+			return isIdx
+		}) {
+			st = append(st, in.(*ssa.Store))
+		}
+		ok := len(st) == 2 && len(fn.Blocks) == 1
+		if ok {
+			a0, v0 := termOf(st[0].Addr).String(), termOf(st[0].Val).String()
+			a1, v1 := termOf(st[1].Addr).String(), termOf(st[1].Val).String()
+			ok = a0 != a1 && v0 == a1 && v1 == a0 && strings.Contains(a0+a1, "param:1:") && strings.Contains(a0+a1, "param:2:")
+			// the loads precede the first store
+			pos := map[ssa.Instruction]int{}
+			for i, in := range fn.Blocks[0].Instrs {
+				pos[in] = i
+			}
+			for _, s := range st {
+				ld, isLoad := s.Val.(*ssa.UnOp)
+				if !isLoad || pos[ld] > pos[st[0]] {
+					ok = false
+				}
+			}
+		}
+		_, stores := show(fn)
+		c.Check(ok, "O10", "PROV", funcKey(fn)+": Swap exchanges exactly the two slots", fn.Pos(), strings.Join(stores, " ; "), "Swap does not exchange items[i] and items[j] ("+strings.Join(stores, " ; ")+"): every sift of container/heap corrupts the order")
+	}
 }
